@@ -165,6 +165,8 @@ def run_variants(image, answers, r, FAR, tier, sieve, counters):
 
 def work(task):
     global DEVICE
+    if task[0] == 'pages':
+        return work_pages(task)
     from fjv.enginecheck import answer_scripts, features
     from fjv.engines import make_device_class
     from fjv.ref import machine as R1
@@ -213,6 +215,94 @@ def work(task):
         os.close(saved_err)
         os.close(devnull)
     return counters, hist, sieve.result(), sample
+
+
+# ------------------------------------------------------------------ many pages (page table growth, cache-slot pressure)
+def page_sets(w):
+    ww = w.bit_length() - 1
+    maxpage = (1 << (w - ww)) >> 14
+    sets = {
+        'A37': [(k * 37 + 5) for k in range(40)],
+        'B16': [(1 << 12) + k * 16 for k in range(40)],
+        'Csq': [(k * k * 3 + 1) for k in range(70)],
+        'D5': [(k * 5 + 2) for k in range(131)],
+        'E64': [(1 << 10) + k * 64 + (k % 3) for k in range(66)],
+    }
+    if w == 64:
+        sets['F40'] = [(1 << 26) + k * 977 for k in range(34)]
+        sets['G57'] = [((1 << 43) - 1 - k * 12345) for k in range(33)]
+    out = {}
+    for name, pages in sets.items():
+        pages = [p % (maxpage - 2) + 1 for p in pages]
+        pages = list(dict.fromkeys(pages))
+        if len(pages) >= 33:
+            out[name] = pages
+    return out
+
+
+def pages_image(w, pages, order_mul):
+    """a chain through one 4-word segment per page: op k flips a bit of another segment's data word and jumps on;
+    two passes, so evicted pages are touched again. returns (image, expected number of ops)"""
+    from fjv.ref import machine as R1
+    K = len(pages)
+    base = [p * 16384 + 2 * (k % 7) * 2 for k, p in enumerate(pages)]  # word address of segment k
+    order = [(k * order_mul) % K for k in range(K)]
+    if len(set(order)) != K:
+        order = list(range(K))
+    segs = [(0, 2)] + [(b, 6) for b in base]
+    data = {0: 0, 1: base[order[0]] * w}
+    for i, k in enumerate(order):
+        tgt = order[(i * 5 + 3) % K]
+        nxt = order[i + 1] if i + 1 < K else None
+        # first-pass op (words 0,1), second-pass op (words 2,3), data words 4,5
+        data[base[k]] = (base[tgt] + 4) * w + (i % w)
+        data[base[k] + 1] = (base[nxt] * w) if nxt is not None else (base[order[0]] + 2) * w
+        tgt2 = order[(i * 3 + 1) % K]
+        data[base[k] + 2] = (base[tgt2] + 5) * w + ((i * 7) % w)
+        data[base[k] + 3] = ((base[nxt] + 2) * w) if nxt is not None else (base[k] + 2) * w  # the last op is a self loop
+        data[base[k] + 4] = 0x5A5A & ((1 << w) - 1)
+        data[base[k] + 5] = k
+    return R1.Image(w, segs, data), 2 * K + 1
+
+
+def work_pages(task):
+    global DEVICE
+    from fjv.enginecheck import write_image, compare
+    from fjv.engines import make_device_class, run_engine
+    from fjv.ref import machine as R1
+    if DEVICE is None:
+        DEVICE = make_device_class()
+    _, tier, w, name, mul = task
+    pages = page_sets(w)[name]
+    image, nops = pages_image(w, pages, mul)
+    r = R1.run(image, [], nops + 10)
+    counters = {'images': 1, 'cases': 1, 'engine_runs': 0, 'skipped_horizon': 0, 'nontrivial': 1, 'capped_reads': 0}
+    sieve = Sieve(PROP, MATCHERS)
+    assert r.cause == R1.LOOPING and r.ops == nops, (r.cause, r.ops, nops)
+    path = write_image(image, f'pages-{w}-{name}-{mul}.fjm')
+    probe = sorted(r.mem)
+    K = 40
+    variants = [('featured', 'featured', K, {}, {}), ('fast', 'fast', None, {}, {}), ('paged', 'native-paged', None, {}, {}), ('paged-ring', 'native-paged', K, {}, {}),
+                ('measure-paged', 'native', None, {}, {'FLIPJUMP_MEASURE_SPECULATION': '1', 'FLIPJUMP_NO_FLAT': '1'}), ('default', 'native', None, {}, {}),
+                ('default-ring', 'native', K, {}, {}), ('win3', 'native', None, {'flat_max_words': 3}, {}), ('win3-ring', 'native', 5, {'flat_max_words': 3}, {}),
+                ('measure', 'native-measure', None, {}, {}), ('win-mid', 'native', None, {'flat_max_words': (sorted(pages)[len(pages) // 2]) * 16384 + 3}, {})]
+    variants = [v for v in variants if v[3].get('flat_max_words', 0) <= (1 << 24)]
+    for vname, engine, ring, kw, env in variants:
+        dev = DEVICE([])
+        o = run_engine(path, engine, dev, ring=ring, extra_kwargs=kw, extra_env=env, probe=probe, timeout=10.0)
+        counters['engine_runs'] += 1
+        if o.storage:
+            counters['storage:' + o.storage] = counters.get('storage:' + o.storage, 0) + 1
+        diffs = compare(r, o, ring, w)
+        if diffs:
+            sieve.add({'kind': 'engine/storage-vs-machine (many pages)', 'case': {'w': w, 'page_set': name, 'pages': len(pages), 'order_mul': mul, 'variant': vname,
+                                                                                 'engine': engine, 'ring': ring, 'kwargs': kw, 'env': env, 'storage': o.storage,
+                                                                                 'image': {'w': w}, 'answers': [], 'FAR': None},
+                       'expected': {d[0]: (d[1] if d[0] not in ('final_memory', 'last_ops') else '...') for d in diffs},
+                       'observed': {d[0]: (d[2] if d[0] not in ('final_memory', 'last_ops') else '...') for d in diffs},
+                       'ref': {'steps': [], 'trace': []},
+                       'summary': f'w={w} {len(pages)} pages ({name}, order x{mul}) variant={vname}: differs from the machine in {[d[0] for d in diffs]}'})
+    return counters, {'many_pages_programs': 1, 'executes_far_segment': 1}, sieve.result(), {'page_set': name, 'w': w, 'pages': len(pages), 'ops': nops}
 
 
 def known_paged_alias(record, sig):
@@ -278,6 +368,11 @@ def main():
         return replay(args)
     run = Run(PROP, 'exploration', args, MATCHERS)
     tasks = make_tasks(args.tier, args.only)
+    if not args.only or args.only == 'pages':
+        for w in (32, 64):
+            for name in page_sets(w):
+                for mul in ((1, 7, 11, 13) if args.tier == 'thorough' else (1, 11)):
+                    tasks.append(('pages', args.tier, w, name, mul))
     total, hist, samples = {}, {}, []
     for counters, h, res, sample in pmap(work, tasks, args.jobs):
         for k, v in counters.items():
